@@ -199,6 +199,11 @@ pub open spec fn named_atom_name(t: Term) -> Option<String> {
         _ => None,
     }
 }
+/// the name part of an atom as text: the stored name; nothing for the placeholder; an
+/// interval's number in decimal (std's `usize::to_string`, left unspecified)
+pub open spec fn atom_name_rel(t: Term, n: Seq<char>) -> bool {
+    (named_atom_name(t) matches Some(x) ==> n == x@) && (t is Placeholder ==> n.len() == 0)
+}
 /// same constructor among the atoms
 pub open spec fn atom_kind_same(a: Term, b: Term) -> bool {
     (a is Word <==> b is Word) && (a is Placeholder <==> b is Placeholder)
